@@ -223,6 +223,35 @@ message Semi {
 message After {};
 ''', ["message"], [])
 
+# degenerate files: no token at all (the single gap is both start and end of the file), only a syntax statement
+SKEL["void"] = ('''''', [], [])
+
+SKEL["syn"] = ('''syntax = "proto3";
+''', [], [])
+
+# more than 12 top-level declarations, not in canonical order (a message before the import and the options, options
+# after messages), with declarations the formatter's sort must keep in source order: thirteen messages and one
+# repeated custom file option set three times.  The compiled descriptor fixes both orders.
+SKEL["order"] = ('''syntax = "proto2";
+message M01 {}
+import "opts.proto";
+option (frep) = "r3";
+message M02 {}
+message M03 {}
+message M04 {}
+message M05 {}
+message M06 {}
+message M07 {}
+option (frep) = "r1";
+message M08 {}
+message M09 {}
+message M10 {}
+message M11 {}
+message M12 {}
+message M13 {}
+option (frep) = "r2";
+''', ["message", "custom_option_set"], ["opts.proto"])
+
 TOK = re.compile(r'''"(?:[^"\\\n]|\\.)*"|[0-9][0-9a-zA-Z_.]*|[A-Za-z_][A-Za-z0-9_]*|[=;{}\[\]()<>,.:\-]''')
 GAPNAMES = {"": "none", " ": "sp", "\n": "lf", "\n  ": "lf2", "\n    ": "lf4", "\n      ": "lf6", "\n\n": "blank"}
 
@@ -234,6 +263,8 @@ def tla_str(s):
 def tokenize(text):
     out = []
     pos = 0
+    if text == "":
+        return out
     m = TOK.match(text, pos)
     assert m, "skeleton must start with a token"
     while m:
@@ -267,6 +298,9 @@ def main():
         if not first:
             w(",\n")
         first = False
+        if not toks:
+            w("  %s |-> <<>>" % name)
+            continue
         w("  %s |-> <<\n" % name)
         line = "    "
         for i, (t, c, g) in enumerate(toks):
